@@ -163,7 +163,7 @@ theorem wakeLoop_ck {swf : State → Nat → Nat → Bool → State} (hn : N3 sw
 
 theorem unregNotify_ck {swf : State → Nat → Nat → Bool → State} {sn : State → Nat → State}
     (hn3 : N3 swf) (hn1 : N1 sn) (hswf : CQ3 swf) (hsn : CQ1 sn) (X : List Nat) {s : State} (h : NInv s)
-    (src name : Nat) (hq : name = 0 ∨ 100 ≤ src) : CK X s (unregNotify swf sn s src name) := by
+    (src name : Nat) (hq : name = 0 ∨ QSrc src name) : CK X s (unregNotify swf sn s src name) := by
   unfold unregNotify
   split
   · exact CK.refl X s
@@ -173,9 +173,11 @@ theorem unregNotify_ck {swf : State → Nat → Nat → Bool → State} {sn : St
       have hname : name = 0 := by
         rcases hq with hq | hq
         · exact hq
-        · apply h.n1 src name hq
-          rw [Tbl.find_eq_getD_of_some hfind]
-          exact h.wfN.find_ne_nil hfind
+        · exfalso
+          have hk := h.n1 src name hq.1 (by rw [Tbl.find_eq_getD_of_some hfind]; exact h.wfN.find_ne_nil hfind)
+          rcases hq.2 with e | e
+          · exact hk.1 e
+          · exact hk.2 e
       subst hname
       simp only [unregisterTargets_eq_purge]
       have h1 : NInv ({ ({ s with waitFor := (Tbl.purge s.alive s.waitFor src 0 list []).1 } : State) with
@@ -225,7 +227,7 @@ structure CQAll (fuel : Nat) : Prop where
   stp : CQ1 (stop fuel)
   cwa : CQ1 (cancelWaitingAll fuel)
   swf : CQ3 (stoppedWaitFor fuel)
-  ur : ∀ X s src name, NInv s → (name = 0 ∨ 100 ≤ src) → CK X s (unregister fuel s src name)
+  ur : ∀ X s src name, NInv s → (name = 0 ∨ QSrc src name) → CK X s (unregister fuel s src name)
   ua : CQ1 (unregisterAll fuel)
 
 theorem cqAll_zero : CQAll 0 where
@@ -309,11 +311,11 @@ theorem deleteThread_ck_succ {fuel : Nat} (ih : CQAll fuel) : CQ1 (deleteThread 
       have g3 : Gone (cancelEvents (notifyDelete (stopStep (cancelWaitingAll fuel)
           (s.setTh t fun th => { th with hasVM := false }) t th) t) t) t := g2
       have h4 := n.ur _ t nameDelete h3
-      have j4 := j3.trans (ih.ur X _ t nameDelete h3 (Or.inr ht))
-      have g4 := g3.of_q (q.ur [] _ t nameDelete h3 (Or.inr ht))
+      have j4 := j3.trans (ih.ur X _ t nameDelete h3 (Or.inr ⟨ht, Or.inl rfl⟩))
+      have g4 := g3.of_q (q.ur [] _ t nameDelete h3 (Or.inr ⟨ht, Or.inl rfl⟩))
       have h5 := n.ur _ t nameRemove h4
-      have j5 := j4.trans (ih.ur X _ t nameRemove h4 (Or.inr ht))
-      have g5 := g4.of_q (q.ur [] _ t nameRemove h4 (Or.inr ht))
+      have j5 := j4.trans (ih.ur X _ t nameRemove h4 (Or.inr ⟨ht, Or.inr rfl⟩))
+      have g5 := g4.of_q (q.ur [] _ t nameRemove h4 (Or.inr ⟨ht, Or.inr rfl⟩))
       have h6 := n.ua _ t h5
       have j6 := j5.trans (ih.ua X _ t h5)
       have g6 := g5.of_q (q.ua [] _ t h5)
